@@ -68,6 +68,7 @@ PROPS = {
         "expected_theorems": [
             "C10_pair_swap_probability", "C10_clip_is_min", "C10_pair_outcomes", "C10_swap_moves_only_configuration",
             "C10_shared_cutoff", "C10_equalise_only_grows", "C10_beta_factor",
+            "C10_phase_transition_probabilities", "C10_pair_balance",
         ],
         "assumptions": [
             "J, Gamma, h, beta are dyadic so the quotients formed by relative_weight are compared with a 2^-40 tolerance only",
@@ -270,7 +271,9 @@ PROPS = {
         "property_files": ["C05.v"],
         "expected_theorems": ["C05_exchange_balance", "C05_exchange_balance_in_ladder", "C05_pair_swap_probability", "C05_swap_moves_only_configuration",
                               "C05_beta_factor", "C05_shared_cutoff", "C05_sweep_stationary", "C05_relative_weight_is_weight_ratio",
-                              "C05_p_swap_is_weight_ratio", "C05_p_swap_is_weight_ratio_checked"],
+                              "C05_p_swap_is_weight_ratio", "C05_p_swap_is_weight_ratio_checked",
+            "C05_tempering_step_stationary", "C05_phase_detailed_balance", "C05_step_is_model_step",
+        ],
         "assumptions": [
             "the swap-ratio theorem needs replicas on the same graph with couplings (and fields) of pairwise equal sign and stored operators legal for their own model; its executable premise swap_hyps is evaluated on every probed pair of the correspondence runs",
             "PARTIAL: per-replica stationarity between exchanges is C01-C03; the thread-parallel driver is tied to the serial one by C13; ergodicity / convergence of each rung is decided by the exact-diagonalisation oracle on ladders of 2-5 replicas",
